@@ -166,6 +166,32 @@ def build_disjointness(w):
         hints={'var_types': {'mult': 'Seq[MI]', 'cards': 'Seq[Card]'}, 'ext_funcs': {'infer_multiplicity': IH, 'cardinality.infer_cardinality': CARD_EXT}})
     w._kfb = KFB
 
+    # ---- n-ary element-wise constructs (slices, indexes, arrays ...): the result has one element per combination of the operands' elements
+    # SZ(e): the actual size of the set expression e evaluates to (uninterpreted); the recursive inference is the induction hypothesis
+    w.refclass('IrB', {}, universal=True)
+    w.ufunc('SZ', ['IrB'], 'int')
+    IHC = dict(params={'ir': 'IrB'}, optional=('scope_tree', 'ctx'), returns='Card', ensures=['known(result)', 'SZ(ir) >= 0', 'in_gamma(SZ(ir), result)'], raises={'QueryError': {}})
+    w.ext_funcs['_check_op_volatility'] = dict(params={'args': 'Seq[IrB]', 'cards': 'Seq[Card]', 'ctx': 'Obj'}, returns='none', raises={'QueryError': {}})
+    w.contract(CARD, '_common_cardinality', params={'args': 'Seq[IrB]', 'scope_tree': 'Obj', 'ctx': 'Obj'}, returns='Card',
+        ensures=['known(result)', 'in_gamma(prodn(seq_tab(len(args), lambda k: SZ(args[k])), len(args)), result)',
+                 # closed forms for the arities that occur (index: 2, slice: 1..3)
+                 'implies(len(args) == 1, in_gamma(SZ(args[0]), result))', 'implies(len(args) == 2, in_gamma(SZ(args[0]) * SZ(args[1]), result))',
+                 'implies(len(args) == 3, in_gamma(SZ(args[0]) * SZ(args[1]) * SZ(args[2]), result))'],
+        raises={'QueryError': {}},
+        loops={'comp#0': dict(elem_type='Card', acc='acc', index='i', seq='its', invariant=['len(acc) == i', 'forall(0, i, lambda k: known(acc[k]) and SZ(its[k]) >= 0 and in_gamma(SZ(its[k]), acc[k]))'])},
+        call_ghost={'cartesian_cardinality': {'ns': 'seq_tab(len(args), lambda k: SZ(args[k]))'}},
+        hints={'ext_funcs': {'infer_cardinality': IHC},
+               'lemmas': ['prodn_def(seq_tab(len(args), lambda k: SZ(args[k])), 0)', 'prodn_def(seq_tab(len(args), lambda k: SZ(args[k])), 1)', 'prodn_def(seq_tab(len(args), lambda k: SZ(args[k])), 2)']})
+    w.refclass('SliceInd', {'expr': 'IrB', 'start': 'Opt[IrB]', 'stop': 'Opt[IrB]'})
+    SZO = lambda f: '(SZ(some(ir.%s)) if not is_none(ir.%s) else 1)' % (f, f)
+    w.contract(CARD, '__infer_slice', params={'ir': 'SliceInd', 'scope_tree': 'Obj', 'ctx': 'Obj'}, returns='Card',
+        # e[a:b] is evaluated once per combination of an element of e, of a and of b (an absent bound counts as one)
+        ensures=['known(result)', 'in_gamma(SZ(ir.expr) * %s * %s, result)' % (SZO('start'), SZO('stop'))],
+        raises={'QueryError': {}}, hints={'var_types': {'args': 'Seq[IrB]'}})
+    w.refclass('IndexInd', {'expr': 'IrB', 'index': 'IrB'})
+    w.contract(CARD, '__infer_index', params={'ir': 'IndexInd', 'scope_tree': 'Obj', 'ctx': 'Obj'}, returns='Card',
+        ensures=['known(result)', 'in_gamma(SZ(ir.expr) * SZ(ir.index), result)'], raises={'QueryError': {}})
+
     # ---- tuple constructor: per-element multiplicities of the projections (a.0, a.1, ...) of the tuple set
     # The tuple set is the cartesian product of the element sets, so projecting element k repeats each of its values once per combination
     # of the OTHER elements: the projection is duplicate-free only if element k is and every other element is a singleton.
